@@ -352,7 +352,7 @@ def check_property(prop, tier):
                      or any(ob.get("kind") == "fn" and ob.get("status") == "undecided" and _selected(spec, u, ob.get("qual")) for ob in results[u].obligations.values())]
         if prop == "C15":
             # builtin / rope units have their own stand-in (the boundary differential above); programs are for the VM
-            und_units = [u for u in und_units if u in ("heap", "handlers", "coldpath", "select", "step", "equality", "transfer")]
+            und_units = [u for u in und_units if u in ("heap", "handlers", "coldpath", "select", "step", "worker", "equality", "transfer")]
         if und_units:
             if "transfer" in und_units or "coldpath" in und_units:
                 # cross-heap transfer on the real code: build / extract / inject / compare for a fixed list of values
@@ -399,7 +399,7 @@ def check_property(prop, tier):
             ce = None
         except Exception as e:  # the search only decorates a violation; it never decides
             ce = {"found": False, "note": "counterexample search crashed: %r" % (e,)}
-        if not (ce and ce.get("found")) and oid.split("::", 1)[0] in ("heap", "handlers", "coldpath", "equality", "select", "step"):
+        if not (ce and ce.get("found")) and oid.split("::", 1)[0] in ("heap", "handlers", "coldpath", "equality", "select", "step", "worker"):
             # a violated VM obligation: look for a failing program in the bounded corpus on the real quiv binary
             try:
                 from . import progsearch
